@@ -19,7 +19,8 @@ Section Wrapper.
   Definition inp_index (i r d : nat) : nat := i * in_size * W + r * in_size + d.
   Definition inp_bit (inp : list bool) (i r d : nat) : bool := nth (inp_index i r d) inp false.
 
-  (* res = 0; for b in 0..W-1: res <<= 1; res += !!inp[.. (W-b-1) ..];   (stored in a W-bit object) *)
+  (* res = 0; for b in 0..W-1: res = (T)(((UT) res << 1) | !!inp[.. (W-b-1) ..]);   the shift is done in the unsigned type of the same
+     width (no undefined behaviour at the sign bit, F34), the result is stored back in a W-bit signed object: wrap (2*res + bit) *)
   Definition pack_word (inp : list bool) (i d : nat) : Z :=
     fold_left (fun res b => wrap Wz (2 * res + Z.b2z (inp_bit inp i (W - b - 1) d))) (seq 0 W) 0%Z.
 
@@ -40,7 +41,7 @@ Section Wrapper.
   Definition adder (ot : list Z) (c : nat) : list Z :=
     fold_left (fun o x => ripple x o) (class_words ot c) (repeat 0%Z width).
 
-  (* bit_mask = ONE << b (W-bit object);  !!(o[d] & bit_mask) *)
+  (* bit_mask = (T)((UT) 1 << b) (W-bit object);  !!(o[d] & bit_mask) *)
   Definition masked_bit (t : Z) (b : nat) : Z :=
     Z.b2z (negb (Z.land t (wrap Wz (2 ^ Z.of_nat b)) =? 0)%Z).
 
